@@ -32,6 +32,8 @@ def mk_coord_world(ex, cofactor_one):
     L = ex.fresh_int("L")
     ex.assume(eq(L, bytelen(p)))
     ex.assume(L >= 2)
+    ex.assume(L < 2 ** 32)              # field elements fit in memory
+    ex.assume(bytelen(n) < 2 ** 32)
     h = 1 if cofactor_one else ex.fresh_int("h")
     if not cofactor_one:
         ex.assume(Not_(eq(h, 1)))
@@ -193,6 +195,8 @@ class CoordContract2(Contract):
 
 
     def apply(self, ex, vals, line):
+        ex.call_args = getattr(ex, "call_args", {})
+        ex.call_args[self.qual] = dict(vals)          # ghost: the arguments of the last call (used by callers' postconditions)
         if getattr(ex, "ecdh_mode", False) and getattr(self, "ecdh_apply", None) is not None:
             return self.ecdh_apply(ex, ex.field, vals, line)
         if getattr(ex, "field", None) is not None and getattr(self, "scalar_apply_fn", None) is not None:
@@ -313,6 +317,14 @@ def _(c):
                 goals.append(And_(cond, eq(X, x), eq(imod_uf(Y * Y, W["p"]), alpha), eq(Y % 2, par)))
         return And_(eq(Z, 1), Or_(*goals), full_valid(W, X, Y))
     c.ensures(accepted, "accepted-iff-valid-encoding-and-denotes-the-encoded-point")
+
+    def mkres(ex, curve):
+        W = ex.W
+        pt = SObj(ex.convert(real("ecdsa.ellipticcurve").PointJacobi), {"_PointJacobi__curve": W["cfp"], "_PointJacobi__coords": (ex.fresh_int("X"), ex.fresh_int("Y"), ex.fresh_int("Z")),
+                                                                        "_PointJacobi__order": W["n"], "_PointJacobi__generator": False, "_PointJacobi__precompute": []})
+        pub = SObj(ex.convert(real("ecdsa.ecdsa").Public_key), {"curve": W["cfp"], "generator": W["G"], "point": pt, "order": W["n"]})
+        return SObj(_vk_cls(ex), {"curve": curve, "default_hashfunc": None, "pubkey": pub})
+    c.returns(mkres)
 
     def rejected_only_if(ex, string, validate_point):
         # MalformedPointError only when no encoding matches or the encoded point is invalid.  For the explicit-coordinate
